@@ -12,6 +12,8 @@ RULE = ("Generated: (operation, operand shapes, float64 operand values with per-
         "equations generated from random index strings (plus the equations the library's own callers use); rejection cases "
         "(rank mismatch, shape mismatch, aliasing out=). Oracle: numpy complex128 arithmetic on the decoded operands. "
         "Non-trivial = a rejection case, or all operands have non-zero real AND imaginary parts and some dimension > 1.")
+RULE_EXT = ('Extended as built: purely real / purely imaginary operands, moduli 1e-12..1e3, contraction lengths up to 320, five chained applications whose earlier results are HELD and re-verified (no aliasing of outputs), the shared constant cplx.I must be unchanged after every case.')
+RULE = RULE + " " + RULE_EXT
 ASSUMPTIONS = ["float64 operands, each entry 0 or 1e-100 <= |x| <= 1e3, denominators |y| >= 1e-3, sigmoid |Re z| <= 700",
                "tolerance 1e-12 * (sum of |terms|) for products, 1e-10 relative for quotients"]
 
